@@ -113,6 +113,7 @@ class Unit:
         self.glue = []
         self.rule_counts = {}
         self.rule_sites = {}
+        self.rule_warnings = []
         self.out_lines = []      # text lines
         self.origin = []         # per line (kind, file, line)
         self.func_spans = {}     # outname -> (first_line, last_line) 1-based in output
@@ -135,9 +136,13 @@ def _apply_rw(unit, f, text, rule, rx, repl, opts, where):
         raise ExtractError('rule %s changed the line count in %s' % (rule, where))
     mn = int(opts.get('min', 0))
     mx = int(opts.get('max', 10 ** 9))
-    if n < mn or n > mx:
-        raise ExtractError('rule %s: sanity condition failed in %s: %d applications, expected %s..%s'
-                           % (rule, where, n, mn, opts.get('max', 'inf')))
+    if n > mx:
+        raise ExtractError('rule %s: sanity condition failed in %s: %d applications, expected at most %s'
+                           % (rule, where, n, opts.get('max', 'inf')))
+    if n < mn:
+        # fewer applications than when the unit was written: the source changed shape.  Not fatal: either the
+        # construct is gone (then the contracts decide) or Verus will reject the unrewritten text (UNDECIDED).
+        unit.rule_warnings.append('rule %s applied %d time(s) in %s, expected at least %d' % (rule, n, where, mn))
     if n:
         unit.rule_counts[rule] = unit.rule_counts.get(rule, 0) + n
         unit.rule_sites.setdefault(rule, {})
@@ -516,7 +521,10 @@ def assemble(tmpl_path, out_path, mutation=None):
         p['file'] = os.path.relpath(S.path, REPO)
     for g in unit.glue:
         S = unit.src(g['alias'])
-        loc = S.find_fn(g['container'], g['fn'])
+        if g['fn'] == '-':
+            loc = dict(start=0, end=len(S.text))
+        else:
+            loc = S.find_fn(g['container'], g['fn'])
         m = re.compile(g['anchor'], re.M).search(S.text, loc['start'], loc['end'])
         if not m:
             g['ok'] = False
